@@ -360,6 +360,8 @@ func init() {
 			mixStores(cfg, r, 0.2)
 			cfg.Steps += 150
 			cfg.FastSyncLate = true
+			cfg.PReFF = 0.03
+			cfg.PSilence = 0.04
 			cfg.PJoin = 0.02
 			cfg.PLeave = 0.008
 			cfg.MaxJoins = r.Range(1, 3)
